@@ -632,7 +632,7 @@ class Kernel:
     def listdir_node(self, path):
         path = self._norm(path)
         if path == "/proc":
-            names = [str(p) for p, pr in self.procs.items() if not pr.dying]
+            names = [str(p) for p, pr in self.procs.items() if not pr.dying and not getattr(pr, "hidden", False)]
             names += sorted({k[6:].split("/")[0] for k in self.files
                              if k.startswith("/proc/")})
             return names
@@ -655,6 +655,11 @@ class Kernel:
             p, thread = self._lookup_thread(pid)
             if p is None:
                 raise oserr(errno.ENOENT, path)
+        if getattr(p, "hidden", False):
+            # /proc mounted with hidepid=2 (or the other procfs of PROCFS_PATH):
+            # another user's process exists - kill(pid, 0) says so - but
+            # nothing of it is visible
+            raise oserr(errno.ENOENT, path)
         parts = rest.split("/") if rest else []
         if not parts:
             return DIR
